@@ -153,6 +153,8 @@ Definition skip_until_memchr (fixed3 : bool) (inp : list byte) (p : nat) (ss : l
   end.
 
 (* feature configuration *)
-Record config := { memchr : bool; fixed3 : bool }.
+(* memchr: the cargo feature; fixed3: the repaired three-string memchr arm (fix: commit in /repo);
+   fixedlim: state() also consults the call limit when the closure returned Ok (repair of C12) *)
+Record config := { memchr : bool; fixed3 : bool; fixedlim : bool }.
 Definition skip_until (cfg : config) (inp : list byte) (p : nat) (ss : list (list byte)) : option nat :=
   if memchr cfg then skip_until_memchr (fixed3 cfg) inp p ss else Some (skip_until_basic inp p ss).
